@@ -136,7 +136,7 @@ var props = map[string]*propDef{
 			{Name: "proto.VerifC06Composites", Must: mustC06, Cfg: c06cfg, Quick: map[string]int{"maxrows": 2, "inlen": 10}, Thorough: map[string]int{"maxrows": 2, "inlen": 14}},
 			{Name: "proto.VerifC06Composites", Must: mustC06, Cfg: c06cfg6, Quick: map[string]int{"maxrows": 2, "inlen": 18, "type": 1}, Thorough: map[string]int{"maxrows": 2, "inlen": 20, "type": 1}},
 			{Name: "proto.VerifC06Composites", Must: mustC06, Cfg: c06cfg6, Quick: map[string]int{"maxrows": 2, "inlen": 24, "type": 0}, Thorough: map[string]int{"maxrows": 2, "inlen": 32, "type": 0}},
-			{Name: "proto.VerifC06Composites", Must: mustC06, Cfg: c06cfg6, Quick: map[string]int{"maxrows": 2, "inlen": 36, "type": 9}, Thorough: map[string]int{"maxrows": 2, "inlen": 38, "type": 9}},
+			{Name: "proto.VerifC06Composites", Must: mustC06, Cfg: c06cfg6, Quick: map[string]int{"maxrows": 1, "inlen": 42, "type": 9}, Thorough: map[string]int{"maxrows": 2, "inlen": 50, "type": 9}},
 			{Name: "proto.VerifC06Composites", Must: mustC06, Cfg: c06cfg6, OnlyTier: "thorough", Thorough: map[string]int{"maxrows": 2, "inlen": 18, "type": 13}},
 			{Name: "proto.VerifC06LowCardinalityRaw", Cfg: c06cfg6, Quick: map[string]int{"maxrows": 2, "inlen": 36}, Thorough: map[string]int{"maxrows": 2, "inlen": 38}},
 			{Name: "proto.VerifC06Messages", Cfg: c06cfg, Quick: map[string]int{"inlen": 6}, Thorough: map[string]int{"inlen": 9}},
